@@ -13,6 +13,8 @@ def plan(tier, seed):
             ch("C06", F, "h_iter_row_groups", t, ["api.ParquetFile.iter_row_groups"]),
             ch("C06", F, "h_slice_count", t, ["api.ParquetFile.__getitem__", "api.ParquetFile.count",
                                               "api.ParquetFile.info", "api.ParquetFile.__setstate__"]),
+            ch("C06", F, "h_slice_state", t, ["api.ParquetFile.__getitem__", "api.ParquetFile.__setstate__",
+                                              "api.ParquetFile.statistics", "api.statistics"]),
             ch("C06", F, "h_columns_arg", t, ["api.ParquetFile.to_pandas", "api.ParquetFile._get_index",
                                               "util.check_column_names"]),
             dict(name="C06-lemma-range-index", kind="pyfunc", timeout=300,
